@@ -62,3 +62,9 @@ func VHIter() {
 	q, pre := VGQueue()
 	containers.VIterStep(func() containers.IteratorWithIndex[int] { return q.Iterator() }, pre, q)
 }
+
+// VHSnap: returned slices are snapshots, argument slices are copied, GetSortedValues leaves the container alone (C16).
+func VHSnap() {
+	c, _ := VGQueue()
+	containers.VSnapStep(containers.VSnap{C: c, Mutate: []func(){c.Clear, func() { c.Enqueue(v.Int("m")) }, func() { c.Dequeue() }}})
+}
